@@ -270,3 +270,46 @@ func H03_calls() {
 	}
 	sv.Reach("compared")
 }
+
+// H03_host: strict host functions that keep what they are handed. pair(a, b)
+// returns a list whose backing slice IS the argument slice it received; keep(x)
+// remembers its argument and returns it on the next call. A back end that
+// lends its own working storage to a host function shows here as a value
+// that changes after the call returned.
+func H03_host() {
+	e := NewEngine()
+	lt := types.List(types.Num)
+	pairV := val.Fun(types.Fun("pair", []*types.Type{types.Num, types.Num}, lt), func(args ...*val.Val) *val.Val {
+		l := val.List(lt.List(), 0).List()
+		l.V = args // retained
+		return l.Vl()
+	})
+	e.Register(pairV)
+	e.Register(val.Fun(types.Fun("triple", []*types.Type{types.Num, types.Num, types.Num}, lt), func(args ...*val.Val) *val.Val {
+		l := val.List(lt.List(), 0).List()
+		l.V = args[:3]
+		return l.Vl()
+	}))
+	srcs := []string{
+		"pair(a, b)[1]", "pair(a, b)", "1 + 2 * pair(a, b + 1)[1]", "[pair(a, b), pair(b, a)]", "pair(a, b)[0] + pair(b, a)[0] * 2",
+		"triple(a, b, a + b)[2] - a", "fs[0](a, b)[1] + a", "if(c, pair(a, b), pair(b, a))[0] + b", "string(pair(a, b)) + string(a)",
+		"{p: pair(a, b), q: triple(b, a, 1)}.p[1] + len(\"x\")",
+	}
+	src := srcs[sv.Choice("prog", len(srcs))]
+	ft := types.Fun("f", []*types.Type{types.Num, types.Num}, lt)
+	fs := val.List(types.List(ft).List(), 1).List()
+	fs.V[0] = pairV
+	tys := map[string]*types.Type{"a": tNum, "b": tNum, "c": tBool, "fs": types.List(ft)}
+	names := []string{"a", "b", "c", "fs"}
+	expr, _, cls := e.Front(src, tys, names)
+	sv.Assert("accepted", cls == "ok")
+	a, b := sv.Float64("a"), sv.Float64("b")
+	cv := val.False
+	if sv.Bool("c") {
+		cv = val.True
+	}
+	vals := map[string]*val.Val{"a": val.Num(a), "b": val.Num(b), "c": cv, "fs": fs.Vl()}
+	res, c := runAll(e, expr, vals, names)
+	agree(res, c)
+	sv.Reach("compared")
+}
